@@ -417,7 +417,56 @@ func (h *hreq) toVerif() *gocql.VerifRequest {
 }
 
 // build runs the real builder once: the frame bytes, or "" and the outcome class.
+// toyComp is the "compression algorithm" of the encz / decz ops (Lean: FrameWrite.toyEnc / toyDec): a marker
+// byte, then every byte xor 0x5A. Not the identity and one byte longer than its input, so that what the framer
+// hands to Encode, where it puts the result and which length it writes are observable. The real algorithms: C18.
+type toyComp struct{}
+
+func (toyComp) Name() string { return "toy" }
+func (toyComp) Encode(b []byte) ([]byte, error) {
+	out := make([]byte, 0, len(b)+1)
+	out = append(out, 0xC5)
+	for _, c := range b {
+		out = append(out, c^0x5A)
+	}
+	return out, nil
+}
+func (toyComp) Decode(b []byte) ([]byte, error) {
+	if len(b) == 0 || b[0] != 0xC5 {
+		return nil, fmt.Errorf("toyComp: bad marker")
+	}
+	out := make([]byte, 0, len(b)-1)
+	for _, c := range b[1:] {
+		out = append(out, c^0x5A)
+	}
+	return out, nil
+}
+
+// unz undoes the toy compression of a request frame built by the real framer (header flag 0x01 cleared, body
+// decoded, length rewritten) so that the map iteration order can be read from it; ok=false if it is not of that shape.
+func unz(v int, frame []byte) (plain []byte, ok bool) {
+	hs := headSize(v)
+	if len(frame) < hs {
+		return nil, false
+	}
+	if frame[1]&1 == 0 {
+		return frame, true
+	}
+	body, err := toyComp{}.Decode(frame[hs:])
+	if err != nil {
+		return nil, false
+	}
+	plain = append([]byte{}, frame[:hs]...)
+	plain[1] &^= 1
+	binary.BigEndian.PutUint32(plain[hs-4:], uint32(len(body)))
+	return append(plain, body...), true
+}
+
 func build(h *hreq, r *gocql.VerifRequest) (frame []byte, outcome string) {
+	return buildWith(false, h, r)
+}
+
+func buildWith(z bool, h *hreq, r *gocql.VerifRequest) (frame []byte, outcome string) {
 	defer func() {
 		if p := recover(); p != nil {
 			msg := fmt.Sprint(p)
@@ -432,7 +481,13 @@ func build(h *hreq, r *gocql.VerifRequest) (frame []byte, outcome string) {
 			frame = nil
 		}
 	}()
-	b, err := gocql.VerifBuildRequest(byte(h.v), h.tracing, h.stream, r)
+	var b []byte
+	var err error
+	if z {
+		b, err = gocql.VerifC03fBuildRequest(toyComp{}, byte(h.v), h.tracing, h.stream, r)
+	} else {
+		b, err = gocql.VerifBuildRequest(byte(h.v), h.tracing, h.stream, r)
+	}
 	if err != nil {
 		switch {
 		case strings.Contains(err.Error(), "named query values are not supported in batches"):
@@ -552,6 +607,37 @@ func buildListedOrder(h *hreq, want []byte) (frame []byte, outcome string) {
 			continue
 		}
 		if keys, ok := mapOrder(h, frame); !ok || sameOrder(*m, keys) {
+			return
+		}
+	}
+	return
+}
+
+// buildListedOrderZ is buildListedOrder with the toy compressor configured: the map order is read from the
+// de-compressed frame.
+func buildListedOrderZ(h *hreq, want []byte) (frame []byte, outcome string) {
+	r := h.toVerif()
+	m := h.theMap()
+	tries := 1
+	if len(*m) > 1 {
+		tries = 600
+	}
+	for i := 0; i < tries; i++ {
+		frame, outcome = buildWith(true, h, r)
+		if outcome != "" || len(*m) <= 1 {
+			return
+		}
+		if want != nil {
+			if bytes.Equal(frame, want) {
+				return
+			}
+			continue
+		}
+		plain, ok := unz(h.v, frame)
+		if !ok {
+			return
+		}
+		if keys, ok := mapOrder(h, plain); !ok || sameOrder(*m, keys) {
 			return
 		}
 	}
@@ -726,6 +812,30 @@ func exec(op string) (res string) {
 			return outcome
 		}
 		return digest(frame)
+	case "encz":
+		h := parseReq(&toks{w: w, i: 1})
+		frame, outcome := buildListedOrderZ(h, nil)
+		if outcome != "" {
+			return outcome
+		}
+		return vh.Hex(frame)
+	case "decz":
+		want, err := vh.UnHex(w[1])
+		if err != nil {
+			return "bad-op"
+		}
+		h := parseReq(&toks{w: w, i: 2})
+		frame, outcome := buildListedOrderZ(h, want)
+		if outcome != "" {
+			return outcome
+		}
+		if !bytes.Equal(frame, want) {
+			return "bytes-differ:" + vh.Hex(frame)
+		}
+		if expressible(h) {
+			return "ok"
+		}
+		return "inexpressible"
 	case "dec":
 		want, err := vh.UnHex(w[1])
 		if err != nil {
@@ -1042,6 +1152,38 @@ func (g *gen) emit(h *hreq, class string) {
 			verdict = "ok"
 		}
 		g.out.Case("dec "+vh.Hex(frame)+" "+line, verdict, "dec/"+verdict+"/"+h.kind+fmt.Sprintf("/v%d", h.v), true)
+	}
+	// compression on: the same request (same map order) built with a compressor configured on the framer
+	if len(frame) > 20000 {
+		return
+	}
+	zframe, zout := buildWith(true, h, r)
+	if zout == "" {
+		if m := h.theMap(); len(*m) > 1 {
+			// the Go map's iteration order of THIS build, read from the de-compressed frame
+			if plain, ok := unz(h.v, zframe); ok {
+				if keys, ok := mapOrder(h, plain); ok {
+					reorder(m, keys)
+				}
+			}
+		}
+	}
+	line = h.String()
+	zans := zout
+	zclass := "encz/" + h.kind + fmt.Sprintf("/v%d", h.v)
+	if zout == "" {
+		zans = vh.Hex(zframe)
+		zclass += "/flag" + b2s(zframe[1]&1 == 1)
+	} else {
+		zclass += "/" + zout
+	}
+	g.out.Case("encz "+line, zans, zclass, true)
+	if zout == "" && inRange(h) {
+		verdict := "inexpressible"
+		if expressible(h) {
+			verdict = "ok"
+		}
+		g.out.Case("decz "+vh.Hex(zframe)+" "+line, verdict, "decz/"+verdict+"/"+h.kind+fmt.Sprintf("/v%d", h.v), true)
 	}
 }
 
